@@ -340,18 +340,7 @@ theorem C01_motion_pure : C01_motion_pure_statement := by
     exact TextPure.bind TextPure.getPromptCol (fun pc => em (PosOnly.moveToLineUp S U n pc))
   case lineDown n =>
     exact TextPure.bind TextPure.getPromptCol (fun pc => em (PosOnly.moveToLineDown S U n pc))
-  case viFirstPrint =>
-    refine TextPure.bind (TextPure.editMove S U cfg (PosOnly.moveHome S U)) (fun _ => ?_)
-    refine TextPure.bind TextPure.getLine (fun l => ?_)
-    generalize l.buf.head? = o
-    cases o with
-    | none => exact TextPure.pure _
-    | some c =>
-      by_cases hw : U.ws c = true
-      · have h := em (PosOnly.moveToNextWord S U .start .big 1)
-        simpa [hw] using h
-      · have h : TextPure (pure Status.proceed : EM Status) := TextPure.pure _
-        simpa [hw] using h
+  case viFirstPrint => exact em (PosOnly.moveToFirstPrint S U)
 
 /-- in particular: a step that returns keeps the text -/
 theorem C01_motion_pure_ok (S : Segmenter) (U : UData) (cfg : EdCfg) (m : Movement)
@@ -664,31 +653,29 @@ theorem C01_custom_seq_binding_fallback (cfg : EdCfg) (fuel : Nat) (k1 k2 : KeyE
   `False`: from the stated hypotheses the command returns.  Lemmas: Rl/Lemmas/ExecRefines.lean
   (on top of C03's totality and C04's target / span theorems). -/
 
-/-- **Motions**: every movement except `^` and the `BeforeEnd` word targets (known findings
-    F-C04-vi-first-print, F-C04-vi-e-count): the text is untouched and the cursor is on the
+/-- **Motions**: every movement (`^` included since the repair of D46) except the `BeforeEnd` word targets (known
+    finding F-C04-vi-e-count): the text is untouched and the cursor is on the
     documented target, or stays where the documentation has no target. -/
 theorem C01_execute_refines_move (S : Segmenter) (U : UData) (cfg : EdCfg) (hS : S.Stable) (mode : Mode)
-    (m : Movement) (s : Ed) (hwf : WF s.line) (hm : m ≠ .viFirstPrint) (hbe : ∀ n w, m ≠ .forwardWord n .beforeEnd w) :
+    (m : Movement) (s : Ed) (hwf : WF s.line) (hbe : ∀ n w, m ≠ .forwardWord n .beforeEnd w) :
     wp (execute S U cfg (.move m)) (Refined S U (.move m) mode s) (fun _ _ => False) s :=
-  execute_move_refines S U cfg hS mode m s hwf hm hbe
+  execute_move_refines S U cfg hS mode m s hwf hbe
 
-/-- **Kills** (incl. the character deletes C-d, C-h, `x`, `X`): every movement except `^`: exactly
+/-- **Kills** (incl. the character deletes C-d, C-h, `x`, `X`): every movement (`^` included since the repair of D46): exactly
     the documented span is removed and the cursor is at its start; with nothing to kill the text is
     unchanged, and so is the cursor for the character / word / line-end / line-start / whole-line /
     buffer kills and in an empty buffer (`KillCaveat`: only for `dj` `dk` and char-search kills with
     nothing to kill is the cursor claim conditional). -/
 theorem C01_execute_refines_kill (S : Segmenter) (U : UData) (cfg : EdCfg) (hS : S.Stable) (hnl : S.NlAlone)
-    (hnp : cfg.hinterPanicAt = none) (mode : Mode) (m : Movement) (s : Ed) (hwf : WF s.line) (hr : RingOK s.ring)
-    (hm : m ≠ .viFirstPrint) :
+    (hnp : cfg.hinterPanicAt = none) (mode : Mode) (m : Movement) (s : Ed) (hwf : WF s.line) (hr : RingOK s.ring) :
     wp (execute S U cfg (.kill m)) (RefinedKill S U (.kill m) mode m s) (fun _ _ => False) s :=
-  execute_kill_refines S U cfg hS hnl hnp mode m s hwf hr hm
+  execute_kill_refines S U cfg hS hnl hnp mode m s hwf hr
 
 /-- **Change** (vi `c`+motion, `s`, `S`, `C`): the same removal. -/
 theorem C01_execute_refines_change (S : Segmenter) (U : UData) (cfg : EdCfg) (hS : S.Stable) (hnl : S.NlAlone)
-    (hnp : cfg.hinterPanicAt = none) (mode : Mode) (m : Movement) (s : Ed) (hwf : WF s.line) (hr : RingOK s.ring)
-    (hm : m ≠ .viFirstPrint) :
+    (hnp : cfg.hinterPanicAt = none) (mode : Mode) (m : Movement) (s : Ed) (hwf : WF s.line) (hr : RingOK s.ring) :
     wp (execute S U cfg (.replace m none)) (RefinedKill S U (.change m) mode m s) (fun _ _ => False) s :=
-  execute_change_refines S U cfg hS hnl hnp mode m s hwf hr hm
+  execute_change_refines S U cfg hS hnl hnp mode m s hwf hr
 
 /-- **Yank over a movement** (vi `y`+motion): the line is not touched. -/
 theorem C01_execute_refines_yank (S : Segmenter) (U : UData) (cfg : EdCfg) (mode : Mode) (m : Movement) (s : Ed)
